@@ -65,7 +65,7 @@ REQUIRED = dict(
               'documented-selector-resolves[gas:twopoint]', 'unknown-key-raises[Instrument:snr]',
               'unknown-key-raises[Observation]', 'selector-builds-class[Temperature:file-skiprows]',
               'cli-exit-0[cli:powergas-defaults]'],
-    classes=['section:Temperature', 'section:Pressure', 'section:Chemistry', 'section:Gas', 'section:Planet', 'section:Star',
+    classes=['parser:section-built-again-after-the-first-object-was-written', 'section:Temperature', 'section:Pressure', 'section:Chemistry', 'section:Gas', 'section:Planet', 'section:Star',
              'section:Model', 'section:Contribution', 'section:Optimizer', 'section:Instrument', 'section:Observation',
              'section:Prior', 'composite', 'custom', 'value:number', 'value:bool', 'value:floatlist', 'value:strlist',
              'value:str', 'class:Isothermal', 'class:Guillot2010', 'class:NPoint', 'class:Rodgers2000',
@@ -679,6 +679,27 @@ def build_and_judge(ctx, rng, sec, gen, tag=''):
                       selector=s.selector_text, want=s.klass, got=type(g).__name__)
             view = L.Section(s.name, None, None, s.klass, list(s.entries) + [L.Entry('molecule_name', s.name, s.name, 'str')])
             judge_arrival(ctx, g, view, tag)
+    if not tag and gen in ('Temperature', 'Chemistry') and not getattr(sec, 'ctor_keys', None) and ctx.case['index'] % 3 == 1:
+        # the SAME parser builds the section a second time (a script building two models from one input file) after the
+        # first object's parameters were written through its public setters: the second object carries the file's values
+        wrote = 0
+        try:
+            for n_, t_ in obj.fitting_parameters().items():
+                v_ = t_[2]()
+                if isinstance(v_, (float, np.floating)) and np.isfinite(v_):
+                    t_[3](float(v_) * 1.37 + 0.011)
+                    wrote += 1
+        except Exception:
+            wrote = 0
+        if wrote:
+            try:
+                obj2 = generate(pp, gen)
+            except Exception as e:
+                ctx.check('selector-builds-class[built-again-from-the-same-parser]', False, section=sec.name, klass=sec.klass,
+                          error='%s: %s' % (type(e).__name__, e))
+                return obj
+            ctx.observe('parser:section-built-again-after-the-first-object-was-written')
+            judge_arrival(ctx, obj2, sec, '[built-again-from-the-same-parser]')
     return obj
 
 
